@@ -13,7 +13,9 @@ import (
 	"time"
 
 	enc "github.com/named-data/ndnd/std/encoding"
+	"github.com/named-data/ndnd/std/ndn"
 	spec "github.com/named-data/ndnd/std/ndn/spec_2022"
+	sec "github.com/named-data/ndnd/std/security"
 )
 
 // TestMutGen writes the C04 case file: one line per case
@@ -75,6 +77,55 @@ func TestMutGen(t *testing.T) {
 				fn := []string{"ReadPacket", "ReadPacket", "ReadData", "ReadInterest"}[g.R.Intn(4)]
 				fmt.Fprintf(w, "H %s B %s %s\n", fn, hexOrDash(m.B), m.Tag)
 				fmt.Fprintf(w, "H %s W %s %s\n", fn, segsStr(g.SplitAdv(m.B)), m.Tag)
+			}
+		}
+	}
+	// packets made through the spec API (valid parameters digest, optionally signed), and their mutants
+	for k := 0; k < 12*n; k++ {
+		nm := g.name(true)
+		var b []byte
+		var signer ndn.Signer
+		if k%3 == 0 {
+			signer = sec.NewSha256Signer()
+		}
+		if k%2 == 0 {
+			cfg := &ndn.InterestConfig{CanBePrefix: k%4 == 0, MustBeFresh: k%8 == 0}
+			if k%5 == 0 {
+				nonce := uint64(g.R.Uint32())
+				cfg.Nonce = &nonce
+			}
+			var app enc.Wire
+			if k%4 != 2 || signer != nil {
+				a := make([]byte, g.R.Intn(6))
+				g.R.Read(a)
+				app = enc.Wire{a}
+			}
+			ei, err := spec.Spec{}.MakeInterest(nm, cfg, app, signer)
+			if err != nil {
+				fmt.Fprintf(w, "# MakeInterest: %v\n", err)
+				continue
+			}
+			b = ei.Wire.Join()
+		} else {
+			c := make([]byte, g.R.Intn(6))
+			g.R.Read(c)
+			ed, err := spec.Spec{}.MakeData(nm, &ndn.DataConfig{}, enc.Wire{c}, signer)
+			if err != nil {
+				continue
+			}
+			b = ed.Wire.Join()
+		}
+		if k%7 == 0 {
+			b = tlvBytes(100, tlvBytes(0x50, b)) // LpPacket{Fragment}
+		}
+		ms := append([]Mutant{{b, "valid"}}, Reg[0].Mutants(g, b, full)...)
+		for mi, m := range ms {
+			if mi > 0 && mi%6 != k%6 { // many bases, a sixth of the mutants of each
+				continue
+			}
+			for _, fn := range []string{"ReadPacket", "ReadData", "ReadInterest"} {
+				fmt.Fprintf(w, "H %s B %s api-%s\n", fn, hexOrDash(m.B), m.Tag)
+				fmt.Fprintf(w, "H %s W %s api-%s\n", fn, segsStr(g.SplitAdv(m.B)), m.Tag)
 			}
 		}
 	}
